@@ -13,10 +13,21 @@ ASSUMPTIONS = [
     'port names are drawn from a set in which names are string prefixes of one another (a, ab, abc, a_b, b, x)',
     'include rule sets contain no rule that is an ancestor of another rule of the same set (the property\'s side condition)',
     'independence is probed by mutating every reachable port object on one side after the expose and re-reading the other side; '
-    'in-place mutation of a shared mutable attribute VALUE (e.g. a dict used as default) is not probed',
+    'in-place mutation of a shared mutable attribute VALUE of a NAMESPACE (e.g. a dict used as its default: copy.copy and '
+    'setattr(self, attr, getattr(source, attr)) share it by reference) is not probed and not modelled (values are atoms)',
+    'full model: the source and the destination share no port object before the first expose (C15_full_seq_invariant proves '
+    'that exposes keep it so); every namespace has distinct keys (a dict)',
+    'full stream: identity is compared with `is` against the objects numbered before the first call; property values and leaf '
+    'attributes are compared by `repr` (interned to atoms)',
 ]
 TRUSTED = ['selection model lean/PlumpyModel/Expose/Model.lean (hand-written mirror of PortNamespace.absorb / strip_namespace), '
-           'compared with the real absorb on every case', 'copy.copy / copy.deepcopy (Python runtime)']
+           'compared with the real absorb on every case',
+           'full model lean/PlumpyModel/Expose/Full.lean (hand-written mirror of ProcessSpec._expose_ports, '
+           'PortNamespace.create_port_namespace / absorb / __setitem__ / valid_type.setter on objects with identities), compared with '
+           'the real expose_inputs / expose_outputs on every case of the full stream (pmodel exposefull)',
+           'the enumeration of mutable PortNamespace properties and the defaults of PortNamespace(name) are constants of the model '
+           '(Full.defaultProps, dynIdx, vtIdx), checked against the real class in every case',
+           'copy.copy / copy.deepcopy (Python runtime)']
 
 NAMES = ['a', 'ab', 'abc', 'b', 'a_b', 'x']
 LEAF_ATTRS = [dict(), dict(valid_type=int), dict(required=False), dict(default=3), dict(help='h'), dict(valid_type=str, required=False),
